@@ -142,6 +142,13 @@ void DocumentBuilder::proc_begin(const char* name, const bool isTA, const string
     // the preceding declaration block may have ended inside an unterminated function
     abandon_function();
 
+    if (currentTemplate != nullptr && frames.top() == currentTemplate->frame) {
+        // among the local declarations of a template: the locations and edges that follow this process belong to that template
+        handle_error(TypeException{"$Templates_cannot_be_declared_inside_templates"});
+        enclosingTemplate = currentTemplate;
+        enclosingFrameDepth = templateFrameDepth;
+    }
+
     currentTemplate = document.find_dynamic_template(name);
     if (currentTemplate) {
         /* check if parameters match */
@@ -181,6 +188,11 @@ void DocumentBuilder::proc_end()  // 1 ProcBody
     // a label that failed to parse may have left frames (e.g. of a quantifier) behind: drop them with the template's
     while (frames.size() > templateFrameDepth)
         popFrame();
+    if (enclosingTemplate != nullptr) {
+        currentTemplate = enclosingTemplate;
+        templateFrameDepth = enclosingFrameDepth;
+        enclosingTemplate = nullptr;
+    }
 }
 
 /**
